@@ -863,6 +863,30 @@ def weave_fn(src, container, name, nth, opts, subs, mode, sig_only=False):
             # R20 (continued), safety-only total variants: `x += e;` -> `x = x.wrapping_add(e);` - the release build wraps and goes on, the debug
             # build panics (the path ends): the wrapping form covers both, and what follows must be safe for ANY value of x
             text, k_ = re.subn(r'(?m)^(\s*)([a-z_][A-Za-z0-9_]*)\s*\+=\s*([^;]+);', lambda m: '%s%s = %s.wrapping_add(%s);' % (m.group(1), m.group(2), m.group(2), m.group(3).strip()), text)
+            # (the same statement written out: `x = x + e;` / `x = e + x;` with e free of further top-level additions)
+            def wr_(m):
+                ind, x, rhs = m.group(1), m.group(2), m.group(3)
+                # top-level operators of the right-hand side (outside parentheses / brackets); ` as T` casts bind tighter than `+`
+                d, cuts = 0, []
+                for q, ch in enumerate(rhs):
+                    if ch in '([{':
+                        d += 1
+                    elif ch in ')]}':
+                        d -= 1
+                    elif d == 0 and ch in '+-*/%&|^<>':
+                        cuts.append((q, ch))
+                if len(cuts) != 1 or cuts[0][1] != '+':
+                    return m.group(0)
+                a, b = rhs[:cuts[0][0]].strip(), rhs[cuts[0][0] + 1:].strip()
+                if a == x:
+                    return '%s%s = %s.wrapping_add(%s);' % (ind, x, x, b)
+                if b == x:
+                    return '%s%s = %s.wrapping_add(%s);' % (ind, x, x, a)
+                return m.group(0)
+            before_ = text
+            text = re.sub(r'(?m)^(\s*)([a-z_][A-Za-z0-9_]*)\s*=(?!=)\s*([^;=]+);', wr_, text)
+            k2_, k3_ = (1 if text != before_ else 0), 0
+            k_ += k2_ + k3_
             if k_:
                 rewrites['R20'] = rewrites.get('R20', 0) + k_
     for kind, arg, lines in subs:
